@@ -6,3 +6,5 @@ pub mod util;
 
 #[cfg(any(kani, test))]
 mod c20;
+#[cfg(any(kani, test))]
+mod print;
